@@ -2,6 +2,10 @@
 PROPS = {
     # whole-library memory safety: every workload under the SIM+ASAN engine (two builds)
     "C11": {"variants": ["asan-default", "asan-nosba"], "prop_arg": "ALL", "quick_s": 40, "thorough_s": 900, "workers": 8},
+    # data races: every workload with the happens-before detector on; fine-* see every plain access made by
+    # dispenso code, sim-* only the accesses the harness declares for its payloads (but run ~3x as many seeds)
+    "C10": {"variants": ["fine-default", "fine-tiny", "sim-default", "fine-default", "fine-tiny", "sim-tiny", "fine-default", "fine-tiny"],
+            "prop_arg": "RACE", "quick_s": 40, "thorough_s": 900, "workers": 8},
     "C46": {"quick_s": 25},
     "C03": {"quick_s": 25},
     "C29": {"quick_s": 25},
